@@ -42,6 +42,11 @@ func rrDirected() [][]string {
 		}
 	}
 	cases = append(cases, []string{"udftask - K"})
+	// a UDF (real UDFSocket / UDFProcess) that takes longer to start than the snapshot interval; a task stopped
+	// while its UDF is still starting
+	for _, when := range []string{"slowS", "slowP", "stopS", "stopP"} {
+		cases = append(cases, []string{"udftask " + when + " K"})
+	}
 	return cases
 }
 
